@@ -57,4 +57,40 @@ def difference_no_overflow_statement : Prop :=
   ∀ (t : Tag) (a b : Fields), Valid a → Valid b → Aligned t a → Aligned t b → inI64 a.y → inI64 b.y →
     inI64 (unitNum t a - unitNum t b) → (Civil.difference t a b).ok
 
+/-! ## proofs -/
+
+theorem add_exact : add_exact_statement := by
+  intro t a n va ha
+  exact civilAdd_spec t a n va ha
+
+theorem sub_exact : sub_exact_statement := by
+  intro t a n va ha
+  exact civilSub_spec t a n va ha
+
+theorem difference_exact : difference_exact_statement := by
+  intro t a b va vb ha hb
+  exact difference_val t a b va vb ha hb
+
+theorem inverse : inverse_statement := by
+  intro t a b n va vb ha hb
+  obtain ⟨v1, al1, u1⟩ := civilAdd_spec t a n va ha
+  obtain ⟨v2, al2, u2⟩ := civilAdd_spec t b (Civil.difference t a b).val vb hb
+  constructor
+  · rw [difference_val t _ a v1 va al1 ha, u1]; omega
+  · apply unitNum_inj t v2 va al2 ha
+    rw [u2, difference_val t a b va vb ha hb]; omega
+
+theorem lt_iff : lt_iff_statement := by
+  intro a b va vb
+  exact ⟨lt_iff_secNum va vb, le_iff_secNum va vb, eq_iff_secNum va vb⟩
+
+theorem lt_iff_difference : lt_iff_difference_statement := by
+  intro t a b va vb ha hb
+  rw [difference_val t a b va vb ha hb, lt_iff_lex, ← unitNum_lt_iff_lex t va vb ha hb]
+  omega
+
+/-- the hypotheses are satisfiable on non-trivial values -/
+example : Valid ⟨2024, 2, 29, 13, 0, 0⟩ ∧ Aligned .hour ⟨2024, 2, 29, 13, 0, 0⟩ ∧
+    Valid ⟨1969, 12, 1, 0, 0, 0⟩ ∧ Aligned .month ⟨1969, 12, 1, 0, 0, 0⟩ := by decide
+
 end Cctz.C05
